@@ -5,7 +5,7 @@ from vf.explore import Explorer
 from vf.sched import Sched
 
 
-BUDGET_S = {"quick": 150, "thorough": 2400}       # wall budget of ONE exploration (reported as a cap when it is hit)
+BUDGET_S = {"quick": 400, "thorough": 2400}       # wall budget of ONE exploration (reported as a cap when it is hit)
 
 
 def _preimport():
